@@ -39,7 +39,20 @@ func checkSeconds(t fataler, s int32) (class string, excluded bool) {
 		if s < 60 {
 			class = "sec-below-one-minute"
 		} else if vlib.Known(findingSeconds) {
+			// listed finding: the conversion rounds down. Behind it, still demand a valid
+			// ttl that is short by less than one of its own units.
 			vlib.Excluded(findingSeconds)
+			str := (&operation.StorageOption{TtlSeconds: s}).TtlString()
+			ttl, err := needle.ReadTTL(str)
+			if err != nil {
+				t.Fatalf("TtlSeconds=%d: volume ttl %q is not a valid ttl: %v", s, str, err)
+			}
+			if ttl.Minutes() != 0 {
+				unitSec := int64(ttl.Minutes()) * 60 / int64(ttl.Count)
+				if int64(ttl.Minutes())*60 <= int64(s)-unitSec {
+					t.Fatalf("TtlSeconds=%d: volume ttl %q = %d s is short by a whole unit or more", s, str, int64(ttl.Minutes())*60)
+				}
+			}
 			return class, true
 		}
 	}
@@ -113,12 +126,20 @@ func TestPropSecondsToTtlRandom(t *testing.T) {
 
 // ---- composition with the filer's own visibility rule
 
-type memStore struct{ m map[util.FullPath]*filer.Entry }
+type memStore struct {
+	m map[util.FullPath]*filer.Entry
+}
 
-func (s *memStore) GetName() string                                  { return "verifmem" }
-func (s *memStore) Initialize(util.Configuration, string) error      { return nil }
-func (s *memStore) InsertEntry(_ context.Context, e *filer.Entry) error { s.m[e.FullPath] = e; return nil }
-func (s *memStore) UpdateEntry(_ context.Context, e *filer.Entry) error { s.m[e.FullPath] = e; return nil }
+func (s *memStore) GetName() string                             { return "verifmem" }
+func (s *memStore) Initialize(util.Configuration, string) error { return nil }
+func (s *memStore) InsertEntry(_ context.Context, e *filer.Entry) error {
+	s.m[e.FullPath] = e
+	return nil
+}
+func (s *memStore) UpdateEntry(_ context.Context, e *filer.Entry) error {
+	s.m[e.FullPath] = e
+	return nil
+}
 func (s *memStore) FindEntry(_ context.Context, p util.FullPath) (*filer.Entry, error) {
 	if e, ok := s.m[p]; ok {
 		c := *e
@@ -126,7 +147,7 @@ func (s *memStore) FindEntry(_ context.Context, p util.FullPath) (*filer.Entry, 
 	}
 	return nil, filer_pb.ErrNotFound
 }
-func (s *memStore) DeleteEntry(_ context.Context, p util.FullPath) error { delete(s.m, p); return nil }
+func (s *memStore) DeleteEntry(_ context.Context, p util.FullPath) error      { delete(s.m, p); return nil }
 func (s *memStore) DeleteFolderChildren(context.Context, util.FullPath) error { return nil }
 func (s *memStore) ListDirectoryEntries(context.Context, util.FullPath, string, bool, int64, filer.ListEachEntryFunc) (string, error) {
 	return "", nil
@@ -146,7 +167,7 @@ func (s *memStore) Shutdown()                                                   
 // creation time) in a volume with the TTL the filer asks the master for: as long
 // as Filer.FindEntry still shows the entry, the chunk must be readable.
 func TestPropVisibleEntryHasReadableData(t *testing.T) {
-	vlib.Check(t, 500, 10000, func(t *rapid.T) {
+	vlib.Check(t, 300, 10000, func(t *rapid.T) {
 		t0 := time.Now()
 		s := rapid.OneOf(rapid.Int32Range(1, 7200), rapid.Int32Range(1, 40000000),
 			rapid.Custom(func(t *rapid.T) int32 { // around a unit multiple
@@ -202,7 +223,7 @@ func TestPropVisibleEntryHasReadableData(t *testing.T) {
 		e, ferr := f.FindEntry(context.Background(), "/d/f")
 		visible := ferr == nil && e != nil
 		if wantVisible := age < int64(s); visible != wantVisible {
-			t.Fatalf("entry TtlSec=%d age=%d: FindEntry visible=%v (err=%v)", s, age, visible, ferr)
+			guard{t, t0}.Fatalf("entry TtlSec=%d age=%d: FindEntry visible=%v (err=%v)", s, age, visible, ferr)
 		}
 
 		// the volume side: a chunk uploaded at creation time to a volume with the requested ttl, with that ttl
@@ -226,7 +247,7 @@ func TestPropVisibleEntryHasReadableData(t *testing.T) {
 		}
 		readable, rerr := readBlob(st, vid, b)
 		if visible && !readable {
-			t.Fatalf("entry TtlSec=%d is still visible at age %d s but its chunk (volume/needle ttl %q) is not readable: %v", s, age, ar.Ttl, rerr)
+			guard{t, t0}.Fatalf("entry TtlSec=%d is still visible at age %d s but its chunk (volume/needle ttl %q) is not readable: %v", s, age, ar.Ttl, rerr)
 		}
 		if time.Since(t0).Nanoseconds() > slowCaseNs {
 			vlib.Class("discarded-slow-case")
